@@ -2,6 +2,7 @@ import Toq.Driver.Util
 import Toq.Driver.QJson
 import Toq.Model.Entangle
 import Toq.Model.EntangleSk
+import Toq.Model.EntangleSkDps
 /-! Driver handlers for C14: exact Schmidt rank / product test / purity / closed forms on Gaussian-rational data.
 
 Complex rational arrays travel as `{"den": D, "re": [ints], "im": [ints]}` (entries `(re + i·im)/D`, row-major);
@@ -172,6 +173,7 @@ def hClosed : Handler := fun j => do
 
 * `c14_sk_upper_ppt {"dA","dB","X","Y","LY","lam","LS"}` → `{"ok":[num,den]}` = the bound returned by the verified `checkSkUpperPPT`;
 * `c14_sk_upper_red {"dA","dB","k","X","Y","LY","lam","LS"}` → the bound returned by `checkSkUpperRed k`;
+* `c14_sk_upper_dps {"dA","dB","X","Y","LY","lam","t","LS"}` (`Y`, `LY`, `LS` of order `dA·dB·dB`) → the bound returned by `checkSkUpperDps` (two-copy level, k = 1);
 * `c14_sk_lower {"dA","dB","k","X","Xs","Ys"}` → the Rayleigh quotient returned by `checkSkLower`;
 rejections name the first failed condition (diagnostic only: the verdict is the one of the verified checker). -/
 
@@ -234,9 +236,25 @@ def hSkLower : Handler := fun j => do
     else if !decide (0 < Toq.Sep.normSqV (skVector Xs Ys)) then "zero_vector"
     else "rejected"
 
+def hSkUpperDps : Handler := fun j => do
+  let (dA, dB) ← getSize j
+  let X ← getEMat j "X" (dA * dB) (dA * dB)
+  let Y ← getEMat j "Y" ((dA * dB) * dB) ((dA * dB) * dB)
+  let LY ← getEMat j "LY" ((dA * dB) * dB) ((dA * dB) * dB)
+  let LS ← getEMat j "LS" ((dA * dB) * dB) ((dA * dB) * dB)
+  let lam ← getRat j "lam"
+  let t ← getRat j "t"
+  return skAnswer (checkSkUpperDps X Y LY lam t LS) fun _ =>
+    match psdWhy Y LY with
+    | some s => s!"Y_{s}"
+    | none =>
+      match psdWhy (slackDps X Y lam t) LS with
+      | some s => s!"slack_{s}"
+      | none => "rejected"
+
 def handlers : List (String × Handler) :=
   [("c14_planted", hPlanted), ("c14_vec", hVec), ("c14_op", hOp), ("c14_local_unitary_op", hLocalUnitaryOp),
    ("c14_rank_cert", hRankCert), ("c14_closed", hClosed),
-   ("c14_sk_upper_ppt", hSkUpperPPT), ("c14_sk_upper_red", hSkUpperRed), ("c14_sk_lower", hSkLower)]
+   ("c14_sk_upper_ppt", hSkUpperPPT), ("c14_sk_upper_red", hSkUpperRed), ("c14_sk_lower", hSkLower), ("c14_sk_upper_dps", hSkUpperDps)]
 
 end Toq.Driver.C14
